@@ -19,7 +19,11 @@ EXTENDS Naturals, Sequences, FiniteSets, TLC
 
 CONSTANTS XidStart,      \* non-ASCII code points allowed at the start of an identifier
           XidContinue,   \* non-ASCII code points allowed after the start
-          Keywords       \* set of code-point sequences
+          Keywords,      \* set of code-point sequences
+          PyInvalid,     \* sequences that pass the per-code-point test but that the interpreter itself refuses
+                         \* (str.isidentifier() / compile of `<name> = 1`), for the identifiers that occur
+          NfkcPairs      \* {<<raw, normalised>>}: the interpreter compares identifiers after NFKC normalisation;
+                         \* listed for the identifiers that occur and differ from their normal form
 
 VARIABLE ns
 
@@ -38,6 +42,7 @@ IdCont(c)  == IF IsAscii(c) THEN IsAlnum(c) \/ c = Underscore
 Ident(s)     == /\ Len(s) > 0
                 /\ IdStart(s[1])
                 /\ \A i \in 2..Len(s) : IdCont(s[i])
+                /\ s \notin PyInvalid
 Keyword(s)   == s \in Keywords
 ValidName(s) == Ident(s) /\ ~Keyword(s)
 
@@ -46,6 +51,19 @@ NameClause(s) == IF Len(s) = 0 THEN "C20.empty"
                  ELSE IF ~Ident(s) THEN "C20.invalid"
                  ELSE IF Keyword(s) THEN "C20.keyword"
                  ELSE "ok"
+
+\* why an identifier is not an identifier (locus of C20.invalid; "" when it is one)
+InvalidWhy(s) ==
+  CASE Len(s) = 0 -> ""
+    [] Len(s) > 0 /\ IsAscii(s[1]) /\ ~IdStart(s[1]) -> "ascii_start"
+    [] Len(s) > 0 /\ (\E i \in 1..Len(s) : IsAscii(s[i]) /\ ~IdCont(s[i])) -> "ascii_char"
+    [] Len(s) > 0 /\ (\E i \in 1..Len(s) : ~IsAscii(s[i]) /\ ~IdCont(s[i])) -> "non_ascii_not_xid"
+    [] Len(s) > 0 /\ ~IsAscii(s[1]) /\ ~IdStart(s[1]) -> "xid_continue_at_start"
+    [] Len(s) > 0 /\ s \in PyInvalid -> "interpreter_rejects"
+    [] OTHER -> ""
+
+\* the identifier as the interpreter compares it
+Norm(id) == IF \E p \in NfkcPairs : p[1] = id THEN (CHOOSE p \in NfkcPairs : p[1] = id)[2] ELSE id
 
 \* ---- classes of INPUT strings (plain predicates on the spec text; the locus of a failing verdict)
 CharsOf(s) == {s[i] : i \in 1..Len(s)}
@@ -71,13 +89,14 @@ RangeOf(f)     == {f[x] : x \in DOMAIN f}
 InjectiveMap(f) == \A a, b \in DOMAIN f : a # b => f[a] # f[b]
 NsOf(n)        == IF n \in DOMAIN ns THEN ns[n] ELSE <<>>
 
+\* the namespace records identifiers in the form the interpreter compares (Norm)
 Put(n, s, id) ==
-  ns' = [x \in (DOMAIN ns) \cup {n} |-> IF x = n THEN (s :> id) @@ NsOf(n) ELSE ns[x]]
+  ns' = [x \in (DOMAIN ns) \cup {n} |-> IF x = n THEN (s :> Norm(id)) @@ NsOf(n) ELSE ns[x]]
 
 CanDerive(n, s, id) ==
-  /\ ValidName(id)                      \* C20.empty / C20.invalid / C20.keyword
+  /\ ValidName(id)                      \* C20.empty / C20.invalid / C20.keyword (on the text as written)
   /\ s \notin DOMAIN NsOf(n)            \* a name is derived once (Stable)
-  /\ id \notin RangeOf(NsOf(n))         \* C20.collision
+  /\ Norm(id) \notin RangeOf(NsOf(n))   \* C20.collision (after the interpreter's normalisation)
 
 Derive(n, s, id) == CanDerive(n, s, id) /\ Put(n, s, id)
 
